@@ -75,6 +75,23 @@ def run_unit(unit, model, seed, rlimit=30):
         u.error = f"extraction: {e}"
         return u
     u.res = core.run_verus(u.gen.path, rlimit=rlimit, seed=(seed if seed else None))
+    u.stale = set()
+    for _ in range(3):
+        if not (u.res.fatal and "front-end error" in u.res.fatal):
+            break
+        # proof hints that no longer compile against an edited body (a renamed local ...): drop the hints of exactly
+        # those functions and try again; a proof that goes through with FEWER hints is still a proof
+        stale = core.stale_hint_fns(u.gen, u.res) - u.stale
+        if not stale:
+            break
+        u.stale |= stale
+        try:
+            u.gen = core.build(unit, model, drop_hints=tuple(sorted(u.stale)))
+        except core.UnitError as e:
+            u.error = f"extraction: {e}"
+            return u
+        u.gen.rewrites["R1.stalehint"] = len(u.stale)
+        u.res = core.run_verus(u.gen.path, rlimit=rlimit, seed=(seed if seed else None))
     if u.res.fatal:
         u.error = "verus: " + u.res.fatal[:3000]
         return u
@@ -87,10 +104,10 @@ def verus_fn_pattern(gen, key):
     return key.split(" for ")[-1]
 
 
-def vacuity_one(unit, model, key, idx):
+def vacuity_one(unit, model, key, idx, drop_hints=()):
     """ensures-false variant of one contract-bearing function must be REJECTED by Verus."""
     try:
-        g = core.build(unit, model, mutate_false=key, tag=f"_vac{idx}")
+        g = core.build(unit, model, mutate_false=key, tag=f"_vac{idx}", drop_hints=drop_hints)
     except core.UnitError as e:
         return (key, None, f"extraction: {e}")
     r = core.run_verus(g.path, rlimit=30, verify_function=verus_fn_pattern(g, key), timeout=600)
@@ -337,7 +354,7 @@ def run_property(pid, tier, seed, t0, pin=False):
         for u in runs:
             for i, fn in enumerate(u.gen.fns):
                 if fn["has_contract"] and fn.get("has_body", True) and tag_matches(fn["tags"], pid):
-                    jobs.append((u.unit, u.model, fn["key"], i))
+                    jobs.append((u.unit, u.model, fn["key"], i, tuple(sorted(getattr(u, "stale", ())))))
         with ThreadPoolExecutor(max_workers=NCPU) as ex:
             vac = list(ex.map(lambda j: vacuity_one(*j), jobs))
         for key, rejected, detail in vac:
@@ -391,7 +408,8 @@ def run_property(pid, tier, seed, t0, pin=False):
             names = sorted({ob["name"] for ob in u.obs if ob["kind"] in ("fn", "lemma") and ob["success"]})
             with open(baseline_path(u.unit, u.model), "w") as f:
                 shape = {fn["key"]: [fn.get("closures_without_contract", 0), fn.get("loops", 0)] for fn in u.gen.fns}
-                json.dump({"obligations": names, "anchor_lines": u.gen.anchor_lines, "closure_sigs": u.gen.closure_sigs, "loop_sigs": u.gen.loop_sigs, "shape": shape}, f, indent=1)
+                json.dump({"obligations": names, "anchor_lines": u.gen.anchor_lines, "closure_sigs": u.gen.closure_sigs, "loop_sigs": u.gen.loop_sigs, "shape": shape,
+                           "locals": {fn["key"]: fn.get("locals", []) for fn in u.gen.fns if fn.get("has_contract")}}, f, indent=1)
         undecided = [x for x in undecided if "allow-list" not in x]
 
     # ---- E2 Kani (bounded / complete harnesses)
@@ -448,6 +466,12 @@ def run_property(pid, tier, seed, t0, pin=False):
         # a loop or a non-trivial closure that the pinned tree did not have carries no invariant / contract: the
         # verifier then knows nothing about it and the failure says "needs annotation", not "property broken"
         # (DESIGN 11.3); it counts only together with a failing input on the real code
+        if f["name"] in set(u.gen.renamed_fns) and not found:
+            undecided.append(f"{ob_id}: fails after its ghost text was adapted to renamed locals (R1.renamedlocal) and no failing input was found")
+            continue
+        if f["name"] in getattr(u, "stale", set()) and not found:
+            undecided.append(f"{ob_id}: fails after its proof hints were dropped as stale (they no longer compile against the edited body) and no failing input was found")
+            continue
         base_doc = load_baseline(u.unit, u.model) or {}
         pinned_shape = (base_doc.get("shape") or {}).get(f["name"])
         cur = next((fn for fn in u.gen.fns if fn["key"] == f["name"]), None)
